@@ -111,7 +111,7 @@ from fontTools import varLib
 # we import the `subset` module because we use the `prune_lookups` method on the GSUB
 # table class, and that method is only defined dynamically upon importing `subset`
 from fontTools import subset  # noqa: F401
-from fontTools.cffLib import privateDictOperators2
+from fontTools.cffLib import privateDictOperators2, maxStackLimit
 from fontTools.cffLib.specializer import (
     programToCommands,
     commandsToProgram,
@@ -906,6 +906,15 @@ def instantiateCFF2(
 
     # Ship the charstrings!
     for cs, commands in zip(charStrings, allCommands):
+        if specialize and any(
+            isinstance(arg, list) for command in commands for arg in command[1]
+        ):
+            # Blend lists were grouped for the original number of regions; the
+            # instantiated VarStore may have more, so regroup them to stay within
+            # the CFF2 operand stack limit.
+            commands = specializeCommands(
+                commands, generalizeFirst=True, maxstack=maxStackLimit
+            )
         cs.program = commandsToProgram(commands)
 
     # Remove empty VarStore
